@@ -10,4 +10,5 @@ CONSTANTS
   MAXCELLS = 4
   FIXED_CREATE = TRUE
   COMMIT_FIRST = FALSE
+  MAY_MOVE = TRUE
   CRASHES = 0
